@@ -305,7 +305,7 @@ impl Scenario for C03 {
                 return fin(out, fp);
             }
         }
-        out.nontrivial = !case.history.is_empty() || true;
+        out.nontrivial = !case.history.is_empty() && case.target.prog.nodes.len() >= 3;
         if let Ok((c, _, _)) = &reference.res {
             out.count("sim.vm_cost", (*c).min(1 << 40));
         }
@@ -368,7 +368,7 @@ impl Scenario for C03 {
         json!({"history": hist, "target": case.target.prog.brief(200), "env": case.target.env.brief(60), "flags": format!("{:#x}", case.target.flags), "budget": case.target.max_cost, "heap_limit": case.heap_limit})
     }
     fn rule() -> &'static str {
-        "case = the life of one long-lived allocator: up to 12 history events (junk trees; earlier runs of other generated programs, half of them aborted by a budget placed at one of their own cost checkpoints, a third followed by restore_checkpoint; checkpoint / restore pairs; optionally a heap limit so that earlier runs can die with out-of-memory), then the target program, whose atoms are re-encoded per atom (default / own heap buffer via two-part concat / substring view into a junk atom / via new_small_number or new_number), run under 4 entropy streams for the add/sub accumulator split. Reference: the same target on a fresh Allocator::new(), default encoding, all-zero entropy. Oracle: identical cost, result tree and error kind (skipped when either side reports an allocator limit). BLS programs share one pool of points so that earlier runs and the target meet in the validated-point cache."
+        "case = the life of one long-lived allocator: up to 12 history events (junk trees; earlier runs of other generated programs, half of them aborted by a budget placed at one of their own cost checkpoints, a third followed by restore_checkpoint; checkpoint / restore pairs; optionally a heap limit so that earlier runs can die with out-of-memory), then the target program, whose atoms are re-encoded per atom (default / own heap buffer via two-part concat / substring view into a junk atom / via new_small_number or new_number), run under 4 entropy streams for the add/sub accumulator split. Reference: the same target on a fresh Allocator::new(), default encoding, all-zero entropy. Oracle: identical cost, result tree and error kind (skipped when either side reports an allocator limit). BLS programs share one pool of points so that earlier runs and the target meet in the validated-point cache. Non-trivial: at least one history event and a target program of >= 3 nodes; distinct = fingerprints of (reference outcome, flags)."
     }
     fn default_runs(tier: Tier) -> u64 {
         match tier {
